@@ -664,6 +664,55 @@ theorem history_keeps_len (m : Mesh) (hm : m.Inv) (ops : List Op) : (runM m ops)
       have hri := (stepM_region_n m hm op recv ret hstep).2.1
       exact (ih ret hri).trans (stepM_keeps_len m hm op recv ret hstep)
 
+/-- helper: a name-preserving pairing has the same list of names -/
+theorem forall2_names (subs subs' : List (String × Region)) (P : String × Region → String × Region → Prop)
+    (h : List.Forall₂ (fun p p' => p'.1 = p.1 ∧ P p p') subs subs') : subs'.map Prod.fst = subs.map Prod.fst := by
+  induction h with
+  | nil => rfl
+  | cons hp _ ih => simp [hp.1, ih]
+
+/-- **every accepted mesh step keeps the subregion names, in order** (either form) -/
+theorem stepM_keeps_names (m : Mesh) (op : Op) (recv ret : Mesh) (h : stepM m op = .ok (recv, ret)) :
+    ret.subs.map Prod.fst = m.subs.map Prod.fst := by
+  rw [stepM_eq_stepMU] at h
+  unfold stepMU at h
+  cases hr : stepR m.region op with
+  | error e => simp [hr] at h
+  | ok p =>
+    cases hs : mapSubs m.subs (fun s => stepR s (subOp m op)) with
+    | error e => simp [hr, hs] at h
+    | ok subs' =>
+      have hn := forall2_names _ _ _ (mapSubs_inv _ _ _ hs)
+      simp only [hr, hs] at h
+      split at h
+      · injection h with h; injection h with _ h2; subst h2; exact hn
+      · unfold mkMesh? at h
+        cases hm : Mesh.mkN? p.2 (opN m op) (opBc m op) with
+        | error e => simp [hm] at h
+        | ok m0 =>
+          simp only [hm] at h
+          cases hset : setSubs m0 subs' with
+          | error e => simp [hset] at h
+          | ok m1 =>
+            simp only [hset] at h
+            injection h with h; injection h with _ h2; subst h2
+            unfold setSubs at hset
+            split at hset
+            · injection hset with hset; subst hset
+              simp only [List.map_map]; rw [← hn]; rfl
+            · cases hset
+
+/-- **every history keeps the subregion names, in order**: no step adds, drops, renames or reorders a
+subregion (rejected steps skipped, in-place and copying steps mixed) -/
+theorem history_keeps_names (m : Mesh) (ops : List Op) : (runM m ops).subs.map Prod.fst = m.subs.map Prod.fst := by
+  induction ops generalizing m with
+  | nil => rfl
+  | cons op ops ih =>
+    unfold runM
+    cases hstep : stepM m op with
+    | error e => exact ih m
+    | ok p => exact (ih p.2).trans (stepM_keeps_names m op p.1 p.2 hstep)
+
 /-- **"cell·n equals the region edges" after every history**: for every mesh reached by any
 finite history, on every axis the count is positive and `n · cell = pmax − pmin` exactly -/
 theorem cells_tile_after_history (m : Mesh) (hm : m.Inv) (ops : List Op) (a : Nat) (ha : a < (runM m ops).ndim) :
